@@ -10,7 +10,7 @@ import z3
 from . import terms as T
 from . import mathfn
 from . import arrays as A
-from .vc import Unsupported, PathAbort, PathEnd
+from .vc import Unsupported, PathAbort, PathEnd, ContractStop
 from .values import (Sym, SArr, SSeq, SObj, Opaque, ModuleRef, ClassRef, FuncVal, BoundMethod, Builtin,
                      PartialVal, ExcClass, ExcInstance, TypeVal, StrSym, PyRaise, UNDEF, wrap, term_of,
                      is_scalar, exc_isinstance, EXC_PARENT)
@@ -833,6 +833,11 @@ class Interp:
         self.cx.spec_side += 1
         try:
             return spec.inv(self, env, k)
+        except (Unsupported, PathAbort, PathEnd, ContractStop, PyRaise):
+            raise
+        except (TypeError, KeyError, NameError, AttributeError, IndexError, ValueError) as e:
+            # the loop contract names a local / shape the current code does not have: it no longer fits, nothing is decided
+            raise Unsupported(f"loop contract does not fit the current code ({type(e).__name__}: {e})")
         finally:
             self.cx.spec_side -= 1
 
@@ -890,7 +895,8 @@ class Interp:
                 c = self.eval(while_test, env)
                 if not self.truth(c, "while guard"):
                     raise PathAbort("guard false in body path")
-            dec0 = spec.decreases(self, env) if spec.decreases else None
+            # a for-loop over a finite sequence terminates by construction: the variant is a while-loop obligation
+            dec0 = spec.decreases(self, env) if (spec.decreases and not is_for) else None
             try:
                 self.exec_block(st.body, env)
             except _Continue:
